@@ -3,7 +3,8 @@
 EXTENDS Catalogue, Json, TLC
 CONSTANTS StreamFile, OutFile, WithSlots
 Streams == ndJsonDeserialize(StreamFile)
-SlotF == IF WithSlots THEN [i \in 1..Len(SlotCases) |-> [kind |-> "slot", forest |-> SlotCases[i]]] ELSE <<>>
+SlotF == IF WithSlots THEN [i \in 1..Len(SlotCases) |-> [kind |-> "slot", forest |-> SlotCases[i]]]
+                          \o [i \in 1..Len(NestedLong) |-> [kind |-> "nested-long", forest |-> NestedLong[i]]] ELSE <<>>
 Rand == [i \in 1..Len(Streams) |-> [kind |-> "random", forest |-> GenForest(Streams[i].s)]]
 ASSUME ndJsonSerialize(OutFile, SlotF \o Rand)
 =============================================================================
